@@ -15,8 +15,7 @@ RULE = (
     "to 3x the bound, schedules with out-of-order and synchronous completions and gates that hold a thread inside the "
     "iterator / compute_batch_size / submit / retrieve hooks while other batches complete or fail; optionally failing tasks "
     "and (generator modes) a close at a drawn instant.  Oracle, with P = pre_dispatch in tasks (independently evaluated), b "
-    "= largest batch size, n = n_jobs: (i) when the initial burst ends without any completion, pulled == min(N, P) (N for "
-    "'all'); (ii) at every event pulled - done <= (P + 2n)*b, independent of N; (iii) batches in flight <= P at every event; "
+    "= largest batch size, n = n_jobs: (i) pre_dispatch='all': when the initial burst ends without any completion, pulled == N; (ii) at every event pulled - done <= (P + 2n)*b, independent of N; (iii) batches in flight <= P at every event; "
     "(iv) the iterator is never entered by a thread while another is inside; (v) after the failing batch's callback has "
     "returned, or close() has returned, pulled never increases.  Plus eval_expr == Python arithmetic on generated "
     "expressions and ValueError for names/calls/attributes.  Non-trivial: N > (P+2n)*b and (a completion issued while a "
@@ -88,9 +87,10 @@ def run_case(spec):
     burst_end = next((e for e in evs if e["kind"] in ("retrieval_enter", "call_returned_generator")), None)
     first_completion = next((e for e in evs if e["kind"] == "complete_start"), None)
     if burst_end and (first_completion is None or first_completion["seq"] > burst_end["seq"]) and not rec.get("exception"):
-        want = N if P is None else min(N, P)
-        if burst_end["pulled"] != want:
-            raise Violation("initial burst pulled %d items, expected %s (%s)" % (burst_end["pulled"], want, where),
+        # the statement fixes the size of the initial burst only for 'all' (everything up front); for the other forms the
+        # burst is judged by the bounds below, like every other instant
+        if P is None and burst_end["pulled"] != N:
+            raise Violation("pre_dispatch='all': the initial burst pulled %d of %d items (%s)" % (burst_end["pulled"], N, where),
                             signature=["burst-size"])
     # (ii)/(iii) bounds at every event
     if P is not None:
